@@ -17,13 +17,13 @@ import (
 	"fmt"
 	"go/ast"
 	"go/build"
-	"sort"
-	"strconv"
 	"go/parser"
 	"go/printer"
 	"go/token"
 	"os"
 	"path/filepath"
+	"sort"
+	"strconv"
 	"strings"
 	"syscall"
 )
